@@ -104,6 +104,12 @@ def build_all(report):
             shutil.copy(os.path.join(REPO, "Cargo.lock"), lockfile)
         # 3. cargo build of the harness against /repo's working tree (hooks on via .cargo/config.toml)
         rc, out, err = run(["cargo", "build", "--offline"], cwd=HARNESS)
+        if rc != 0 and ("rust-lld: error" in err or "ld returned" in err or "linking with" in err) and "error[E" not in err:
+            # a linker failure with no compiler diagnostic is a stale-object problem of the build
+            # directory (e.g. an earlier build was interrupted), not a statement about /repo:
+            # rebuild the affected crates from scratch once
+            run(["cargo", "clean", "--offline", "-p", "hcore", "-p", "brood-harness", "-p", "brood"], cwd=HARNESS)
+            rc, out, err = run(["cargo", "build", "--offline"], cwd=HARNESS)
         if rc != 0:
             failures["cargo"] = err[-6000:]
         # 4. lake build: library + driver
